@@ -618,7 +618,7 @@ fn worlds_for(root: u64, i: u64, n: usize, nnodes: usize) -> Vec<World> {
     (0..n).map(|k| gen_world(&mut r, k, nnodes)).collect()
 }
 
-fn silence_stdout() -> i32 {
+pub fn silence_stdout() -> i32 {
     unsafe {
         let saved = libc::dup(1);
         let devnull = libc::open(b"/dev/null\0".as_ptr() as *const libc::c_char, libc::O_WRONLY);
@@ -630,7 +630,7 @@ fn silence_stdout() -> i32 {
     }
 }
 
-fn restore_stdout(saved: i32) {
+pub fn restore_stdout(saved: i32) {
     use std::io::Write;
     let _ = std::io::stdout().flush();
     unsafe {
@@ -851,6 +851,7 @@ pub fn main(args: &[String]) {
         ],
         wall_s: wall,
         violations: out_viol,
+        occurrences: BTreeMap::new(),
     });
 }
 
